@@ -10,6 +10,7 @@ import (
 	"os"
 	"os/exec"
 	"regexp"
+	"strconv"
 	"strings"
 	"sync"
 	"sync/atomic"
@@ -263,6 +264,13 @@ func classifyPanic(line string) string {
 func (p *Pool) Exec(req *Request) *Response {
 	req.ID = p.nextID.Add(1)
 	p.Requests.Add(1)
+	// Every crash or hang costs a worker restart (and, for runaway recursion, seconds of stack growth). Once a
+	// process has recorded crashBudget of them the violation is established many times over; the remaining
+	// requests are answered "inconclusive" so that a table over 70 000 programs ends in minutes, not hours.
+	if n := p.Crashes.Load() + p.Hangs.Load(); n >= crashBudget() {
+		p.Inconclusive.Add(1)
+		return &Response{ID: req.ID, Inconclusive: true, Err: fmt.Sprintf("skipped: %d crashes/hangs already recorded in this process", n)}
+	}
 	timeout := p.Timeout
 	for attempt := 0; ; attempt++ {
 		w, err := p.get()
@@ -299,6 +307,13 @@ func (p *Pool) Exec(req *Request) *Response {
 			return &Response{ID: req.ID, Hang: true}
 		}
 	}
+}
+
+func crashBudget() int64 {
+	if v, err := strconv.Atoi(os.Getenv("VERIF_CRASH_BUDGET")); err == nil && v > 0 {
+		return int64(v)
+	}
+	return 60
 }
 
 func tail(s string, n int) string {
